@@ -22,6 +22,9 @@ DECIDED = [
     'R2 in should_record the sample recorded for a range step depends on the range bookkeeping and the two '
     'bracketing points only; any definition that depends on the filter mask or the time step is guarded by '
     '"no range sample was produced" (data is None), so richer requests add rows but never alter a range row',
+    'R3 the recording schedule - next_record_distance, time_of_last_record and the raising of the RANGE flag, in every '
+    'method of the filter - has no data or control dependence on the filter mask (field-sensitive taint from '
+    'self.filter): the distance and time rows of an extra-data request are those of the plain request',
 ]
 NOT_DECIDED = ['equality "to float rounding" of rows computed from different requests (a runtime fact about the '
                'sequence of integration points)']
@@ -246,6 +249,126 @@ def run(prog: Program, rep, thorough: bool) -> None:
     if n_range == 0:
         rep.fail('C11.R2', tc.path, sr.node.lineno, sr.qualname, 'no-range-def',
                  'no definition of the recorded sample is independent of the filter mask and the time step')
+    rep.rule('C11.R3', 'the recording schedule does not depend on the filter mask', 3)
+    check_schedule(prog, rep, 'C11.R3')
+
+
+SCHEDULE = ('next_record_distance', 'time_of_last_record')
+
+
+def check_schedule(prog: Program, rep, rule: str) -> None:
+    """Which samples become plain rows (RANGE flag, by distance or by time) is decided by the recording schedule:
+    next_record_distance, time_of_last_record and the raising of RANGE.  None of these may depend - by data or by
+    control - on the filter mask (the extra-data flag): otherwise the plain rows of a richer request are not the rows of
+    the plain request.  Field-sensitive taint from `self.filter` over every method of the filter class."""
+    tc = prog.module(C.M_TC)
+    fc = prog.cls(C.M_TC, '_TrajectoryDataFilter')
+    flags = {n for n in prog.cls(C.M_TD, 'TrajFlag').attr_order}
+
+    def stores_schedule(f: Func, seen=None) -> Set[str]:
+        seen = seen if seen is not None else set()
+        if f.fq in seen:
+            return set()
+        seen.add(f.fq)
+        me = f.positional[0]
+        out: Set[str] = set()
+        for n in ast.walk(f.node):
+            if isinstance(n, ast.Attribute) and isinstance(n.ctx, ast.Store) and isinstance(n.value, ast.Name) and n.value.id == me:
+                if n.attr in SCHEDULE:
+                    out.add(n.attr)
+                if n.attr == 'current_flag' and isinstance(parent(n), (ast.AugAssign, ast.Assign)) \
+                        and any(isinstance(x, ast.Attribute) and x.attr == 'RANGE' for x in ast.walk(parent(n).value)):
+                    out.add('RANGE flag')
+            if isinstance(n, ast.Call) and isinstance(n.func, ast.Attribute) and isinstance(n.func.value, ast.Name) \
+                    and n.func.value.id == me and n.func.attr in fc.methods:
+                out |= stores_schedule(fc.methods[n.func.attr], seen)
+        return out
+
+    n_writes = 0
+    for f in fc.methods.values():
+        if f.name == '__init__' or not stores_schedule(f):
+            continue
+        rep.saw(f)
+        me = f.positional[0]
+        cfg = CFG(f.node)
+        cd = cfg.control_dependence()
+        tainted: Set[str] = set()
+
+        def expr_tainted(e: ast.AST) -> bool:
+            for x in ast.walk(e):
+                if isinstance(x, ast.Attribute) and isinstance(x.value, ast.Name) and x.value.id == me \
+                        and (x.attr == 'filter' or f'{me}.{x.attr}' in tainted) and isinstance(x.ctx, ast.Load):
+                    return True
+                if isinstance(x, ast.Name) and x.id in tainted and isinstance(x.ctx, ast.Load):
+                    return True
+            return False
+
+        def node_tainted(n: Node) -> Optional[str]:
+            for g in _all_guards(cfg, cd, n.id):
+                gt = cfg.nodes[g]
+                if gt.ast is not None and expr_tainted(gt.ast):
+                    return f'under `{gt.text()[:60]}`'
+            return None
+
+        changed = True
+        while changed:
+            changed = False
+            for n in cfg.nodes:
+                if n.ast is None or n.kind != 'stmt':
+                    continue
+                a = n.ast
+                val = getattr(a, 'value', None)
+                if not isinstance(a, (ast.Assign, ast.AugAssign, ast.AnnAssign)) or val is None:
+                    # walrus inside a test / expression statement
+                    for x in ast.walk(a):
+                        if isinstance(x, ast.NamedExpr) and (expr_tainted(x.value) or node_tainted(n)) and x.target.id not in tainted:
+                            tainted.add(x.target.id)
+                            changed = True
+                    continue
+                if not (expr_tainted(val) or node_tainted(n)):
+                    continue
+                tgts = a.targets if isinstance(a, ast.Assign) else [a.target]
+                for t in tgts:
+                    for x in ast.walk(t):
+                        key = None
+                        if isinstance(x, ast.Name) and isinstance(x.ctx, ast.Store):
+                            key = x.id
+                        elif isinstance(x, ast.Attribute) and isinstance(x.ctx, ast.Store) and isinstance(x.value, ast.Name) \
+                                and x.value.id == me:
+                            key = f'{me}.{x.attr}'
+                        if key and key not in tainted:
+                            tainted.add(key)
+                            changed = True
+        for n in cfg.nodes:
+            if n.ast is None or n.kind != 'stmt':
+                continue
+            what: Set[str] = set()
+            a = n.ast
+            for x in ast.walk(a):
+                if isinstance(x, ast.Attribute) and isinstance(x.ctx, ast.Store) and isinstance(x.value, ast.Name) and x.value.id == me:
+                    if x.attr in SCHEDULE:
+                        what.add(x.attr)
+                    if x.attr == 'current_flag' and any(isinstance(y, ast.Attribute) and y.attr == 'RANGE'
+                                                        for y in ast.walk(getattr(a, 'value', a))):
+                        what.add('RANGE flag')
+                if isinstance(x, ast.Call) and isinstance(x.func, ast.Attribute) and isinstance(x.func.value, ast.Name) \
+                        and x.func.value.id == me and x.func.attr in fc.methods:
+                    what |= {f'{w} (in {x.func.attr})' for w in stores_schedule(fc.methods[x.func.attr])}
+            if not what:
+                continue
+            n_writes += 1
+            why = node_tainted(n)
+            if why is None and isinstance(a, (ast.Assign, ast.AugAssign)) and expr_tainted(a.value):
+                why = 'its value reads the filter mask'
+            if why:
+                rep.fail(rule, tc.path, n.line, f.qualname, f'schedule:{sorted(what)[0]}',
+                         f'`{n.text()[:60]}` updates the recording schedule ({", ".join(sorted(what))}) {why}, which depends on '
+                         f'the filter mask: with extra data requested the distance / time rows are no longer those of the '
+                         f'plain request')
+            else:
+                rep.ok(rule, tc.where(a), f'{f.qualname}: `{n.text()[:50]}` ({", ".join(sorted(what))}) does not depend on the filter mask')
+    if n_writes == 0:
+        raise AnalysisError('no write of the recording schedule found in the filter class')
 
 
 def _all_guards(cfg: CFG, cd, nid: int) -> Set[int]:
@@ -279,6 +402,8 @@ VARIANTS = [
     Variant('trajectory-stores-step', 'break', [(TCF, '        self._init_trajectory(shot_info)\n        return self._integrate(shot_info, max_range >> Distance.Foot,', '        self._init_trajectory(shot_info)\n        self.calc_step = min(self.calc_step, (dist_step >> Distance.Foot) / 2)\n        return self._integrate(shot_info, max_range >> Distance.Foot,')], 'C11.R1'),
     Variant('time-step-limits-delta', 'break', [(TCF, '            delta_time = self.calc_step / max(1.0, velocity)\n', '            delta_time = self.calc_step / max(1.0, velocity)\n            if time_step > 0:\n                delta_time = min(delta_time, time_step)\n')], 'C11.R1'),
     Variant('range-beyond-wind-reset', 'break', [(TCF, '            if range_vector.x >= wind_sock.next_range:  # require check before call to improve performance\n', '            if range_vector.x >= wind_sock.next_range and range_vector.x < maximum_range:  # require check before call to improve performance\n')], 'C11.R1', 'the requested range decides whether the wind switches'),
+    Variant('clock-restarted-by-any-row', 'break', [(TCF, '        self.previous_time = time\n        self.previous_position = position\n', '        if data is not None:\n            self.time_of_last_record = time\n        self.previous_time = time\n        self.previous_position = position\n')], 'C11.R3', 'seeded change C11/6: event rows restart the time clock'),
+    Variant('record-distance-skipped-for-events', 'break', [(TCF, '            self.current_flag |= TrajFlag.RANGE\n            self.next_record_distance += self.range_step\n', '            self.current_flag |= TrajFlag.RANGE\n            if not self.filter & TrajFlag.MACH:\n                self.next_record_distance += self.range_step\n')], 'C11.R3'),
     Variant('twin-filter-construction-moved', 'twin', [(TCF, "        min_step = min(self.calc_step, record_step)\n        # With non-zero look_angle, rounding can suggest multiple adjacent zero-crossings\n", "        # With non-zero look_angle, rounding can suggest multiple adjacent zero-crossings\n        min_step = min(self.calc_step, record_step)\n")], None),
     Variant('twin-record-test-inverted', 'twin', [(TCF, '            if filter_flags:  # require check before call to improve performance\n\n                # Record TrajectoryData row\n                if (data := data_filter.should_record(range_vector, velocity_vector, mach, time)) is not None:\n', '            if filter_flags != 0:  # require check before call to improve performance\n\n                # Record TrajectoryData row\n                if (data := data_filter.should_record(range_vector, velocity_vector, mach, time)) is not None:\n')], None),
 ]
